@@ -54,7 +54,9 @@ func checkC08(r *Run) {
 	runServeD1(r, newServeGen(r, rng), "C08", pick(r, 5*time.Minute, 40*time.Minute))
 	runServeD2(r, rng, "C08")
 	runServeDirtyStatic(r, rng)
-	runLookupModel(r, false)
+	if !r.quick() { // the walk model is checked on every quick run of C01; here only in the thorough tier
+		runLookupModel(r, false)
+	}
 	r.assumption("Location is compared after RFC 3986 resolution against the request URL (net/url)")
 	r.assumption("CONNECT routes that ignore trailing slashes are not generated (DESIGN.md 7)")
 }
